@@ -85,6 +85,15 @@ def checkFfiLine (kvs : List (String × String)) (rhs : String) : String := Id.r
   for ((c, f), i) in (cmc.zip fns).zipIdx do
     let models := ((List.range (2 ^ nmax)).filter fun k => f (assignOfNat k)).length
     if c != models then return s!"FAIL SPEC robdd_model_count of handle #{i} is {c}, number of models over {nmax} variables is {models}"
+  -- the count taken right after each call is over the variables the manager had then
+  let some mcnow := parseNatList (g "mcnow") | return "FAIL PARSE mcnow"
+  let mut nv := n
+  for ((c, f), i) in (mcnow.zip fns).zipIdx do
+    match ops.getD i (.const true) with
+    | .newVar _ => nv := nv + 1
+    | _ => pure ()
+    let models := ((List.range (2 ^ nv)).filter fun k => f (assignOfNat k)).length
+    if c != models then return s!"FAIL SPEC robdd_model_count right after call #{i} is {c}, number of models over the manager's {nv} variables is {models}"
   -- marshalling
   if g "lplen" != toString Constants.maxCoeffs then return s!"FAIL SPEC new_polynomial kept {g "lplen"} coefficients of a longer array, MAX_COEFFS is {Constants.maxCoeffs}"
   let some wr := (lookup kvs "wr").bind parsePairs | return "FAIL PARSE wr"
